@@ -214,7 +214,11 @@ func (a *sgrAnalyzer) analyzeFn(fn *ssa.Function, entry sgrState) sgrState {
 			}
 			var succs []*ssa.BasicBlock
 			if a.mr.Blocks[fn] != nil {
-				succs = productionSuccs(a.mr.Mode)(b)
+				if a.mr.Production {
+					succs = productionSuccs(a.mr.Mode)(b)
+				} else {
+					succs = feasibleSuccs(b, a.mr.Mode)
+				}
 			} else {
 				succs = b.Succs
 				// dependency helpers: the process-wide "no colour at all" switch is outside the property's configurations; taken as off
